@@ -120,7 +120,10 @@ fn write_log(dir: &std::path::Path, rng: &mut Rng, n: usize, name: &str) -> Log 
         let vmm = *rng.pick(&[0x41u8, 0x41, 0x21, 0x31, 0x61, 0x51]);
         let mut m = mk_msg(k as u32, ecu, Some((vmm, *rng.pick(&APIDS), *rng.pick(&APIDS))), 0, &text, true);
         m.reception_time_us = 1_600_000_000_000_000 + k as u64 * 1000;
-        m.timestamp_dms = 10 + k as u32 * 10; // strictly increasing calculated times
+        // strictly increasing calculated times (= reception times: constant delay per ECU); every ECU has been up for a
+        // different time, so the lifecycles have different start times although the time sorted order is the file order
+        let ecu_nr = ECUS.iter().position(|e| *e == ecu).unwrap_or(0) as u32;
+        m.timestamp_dms = 10 + k as u32 * 10 + ecu_nr * 77_770;
         m.standard_header.htyp = 0x31;
         m.to_write(&mut bytes).unwrap();
         // what the file says (the storage header carries the ecu; to_write drops nothing else here)
@@ -300,7 +303,12 @@ fn bin_session(rep: &mut Report, rng: &mut Rng, srv: &mut Server, logs: &[Log], 
         };
     }
     // stream creation before / after parsing finished
-    let (r, _) = send(&mut cl, format!("open {}", json!({"files":[log.path]})), &mut history);
+    // 1/3 of the sessions open the file time sorted (same order for these logs, but the sorted code paths are used)
+    let sorted = rng.chance(1, 3);
+    if sorted {
+        rep.inc("sessions_on_time_sorted_files");
+    }
+    let (r, _) = send(&mut cl, format!("open {}", json!({"files":[log.path], "sort": sorted})), &mut history);
     if !r.as_deref().map_or(false, |r| r.starts_with("ok:")) {
         fail!("bin:open-failed", format!("{:?} stderr {}", r, srv.stderr_tail()));
     }
